@@ -1158,7 +1158,8 @@ func (g *Gen) copyCall(in *ssa.Call, common *ssa.CallCommon, args []*SV, st *Sta
 		d.S, newE, E, n, fmt.Sprintf(src, "(- j! (s-off "+d.S+"))")))
 	// the same frame as quantifier-free instances for the light queries
 	g.presRels = append(g.presRels, presRel{key: k, cur: newE, old: E, reach: "true",
-		except: fmt.Sprintf("(and (= r! (s-ref %[1]s)) (<= (s-off %[1]s) j!) (< j! (+ (s-off %[1]s) %[2]s)))", d.S, n)})
+		except: fmt.Sprintf("(and (= r! (s-ref %[1]s)) (<= (s-off %[1]s) j!) (< j! (+ (s-off %[1]s) %[2]s)))", d.S, n),
+		inside: fmt.Sprintf(src, "(- j! (s-off "+d.S+"))")})
 	// n == 0: heap unchanged (also covers nil destination)
 	st.heaps[k] = g.nameHeap(k, hs, "(ite (= "+n+" 0) "+E+" "+newE+")")
 	if in != nil {
